@@ -97,8 +97,12 @@ impl Story {
             }
 
             if self.get_state().diverted_pointer.is_null() && !current_divert.is_external {
-                //     error(format!("Divert resolution failed: {:?}",
-                // current_divert));
+                return Err(StoryError::InvalidStoryState(format!(
+                    "Divert target doesn't exist: {}",
+                    current_divert
+                        .get_target_path_string()
+                        .unwrap_or_else(|| current_divert.to_string())
+                )));
             }
 
             return Ok(true);
